@@ -111,6 +111,15 @@ def run(eng, tier):
     refs = Refusals(eng, 'execute')
     from wire import check_wire
     nwire = check_wire(eng, PROP, ['ask', 'bid', 'bid(old format)', 'contract_info'])
+    # the discharged refusals lean on I2 / I4 / I7 and on whole-number totals of every open order: their preservation by every
+    # order-changing request is part of this property's argument (the same step obligations are reported under C01/C08/C09/C11)
+    from invariants import check_I2, check_I4, check_I7
+    from money import check_exact_conversions
+    ninv = 0
+    for v in ('ApproveAsk', 'ExecuteMatch', 'RejectAsk', 'RejectBid', 'ExpireAsk', 'ExpireBid', 'CancelAsk', 'CancelBid', 'CreateBid'):
+        for p in eng.paths('execute', 'ok', v):
+            ninv += (check_I2(eng, PROP, p) or 0) + (check_I4(eng, PROP, p) or 0) + (check_I7(eng, PROP, p) or 0)
+            if v in ('ExecuteMatch', 'CancelBid', 'ExpireBid', 'RejectBid', 'CreateBid'): check_exact_conversions(eng, PROP, p)
     inv = {}
     for v in ('CancelAsk', 'ExpireAsk', 'RejectAsk'):
         T, TA = ask_tables(v)
@@ -127,7 +136,7 @@ def run(eng, tier):
                        'or be discharged by a named invariant/lemma (I1-I8, K, L-fit, L-mono) or be incidental storage failure; for Reject with a supplied size additionally the three partial-size refusals. '
                        'A refusal that depends on the order\'s remainder (e.g. a lot-multiple test of the default size) has no entry and is reported. R-table: on these paths the key is removed and the payouts are the entire recorded remainder (linear domain with I2/I4/I7, L-zero, L-uns). '
                        'Legacy ids: the exit requests only require Uuid::parse_str to succeed and use the raw id as key (no canonical-form refusal exists in the table).',
-        'inventory': {'wire_format_types_checked': nwire, 'matched_refusals': inv},
+        'inventory': {'wire_format_types_checked': nwire, 'invariant_preservation_instances': ninv, 'matched_refusals': inv},
         'trusted_base': ['invariants I1-I8/K and lemmas as named per discharged entry (DESIGN §5-6)', 'interpreter models'],
         'not_decided': ['that the invariants capture every reachable state is the paper induction of DESIGN §5 (step obligations under C01/C08/C09/C11)'],
         'assumptions': [],
